@@ -48,7 +48,8 @@ def accessor(view, other, wf, inner):
     return dict(
         params={"self": "ref:Sequence"}, result=f"ref:{inner}", allocates=True,
         requires=[PROTO()],
-        modifies={f"_{view}": "self", f"_{view}_stale": "self", "@lists": f"when(self._{view}_stale, self._{other}._messages)"},
+        # only the conversion absolute -> relative re-orders its source list (stable time sort); relative -> absolute touches nothing
+        modifies=dict({f"_{view}": "self", f"_{view}_stale": "self"}, **({"@lists": f"when(self._{view}_stale, self._{other}._messages)"} if view == "rel" else {})),
         ensures=[("returns_view", f"not is_none(result) and result == self._{view} and not self._{view}_stale"),
                  ("other_untouched", f"self._{other}_stale == old(self._{other}_stale) and self._{other} == old(self._{other})"),
                  ("kept_when_fresh", f"implies(not old(self._{view}_stale), self._{view} == old(self._{view}))"),
@@ -145,3 +146,13 @@ contract("Sequence.copy", params={"self": "ref:Sequence"}, result="ref:Sequence"
                   ("source_untouched", "self._abs_stale == old(self._abs_stale) and self._rel_stale == old(self._rel_stale) and self._abs == old(self._abs) and self._rel == old(self._rel)"),
                   ("source_proto", PROTO())],
          props=["C16", "C04"])
+
+
+# ------------------------------------------------------------------ equals (C17.e): delegates with the same flags
+contract("Sequence.equals", params={"self": "ref:Sequence", "other": "ref:Sequence?", "ignore_channel": "bool", "ignore_time_signature": "bool", "ignore_key_signature": "bool", "ignore_velocity": "bool"},
+         result="bool", allocates=True, cases=CASES,
+         requires=[PROTO(), "implies(not is_none(other), " + PROTO("other") + ")"],
+         modifies=dict(WRAP_MOD_WEAK, **{"_abs": "[self, other]", "_rel": "[self, other]", "_abs_stale": "[self, other]", "_rel_stale": "[self, other]"}),
+         ensures=[("not_a_sequence", "implies(is_none(other), not result)"),
+                  ("delegates_with_the_same_flags", "implies(not is_none(other), result == abs_equals_result(self._abs, other._abs, ignore_channel, ignore_time_signature, ignore_key_signature, ignore_velocity))")],
+         props=["C17", "C04"])
